@@ -281,6 +281,10 @@ def run(prog: Program, res: Result) -> None:  # noqa: PLR0912, PLR0915
                 n_open += 1
                 res.fail("C12.R5", file=nc.file, line=cst.lineno, qualname=f"{nc.name}.__str__", construct=f"{nc.name}: literal markup {cst.value!r}", message=f"{nc.name}.__str__ prints markup from a plain string literal ({cst.value!r}): the token's whitespace-control markers are not reproduced", what=f"{nc.name}: markup printed with wc markers")
         for js in [n for n in ast.walk(m.node) if isinstance(n, ast.JoinedStr)]:
+            sk = _fstring_skeleton(js) or ""
+            for mt in list(re.finditer(r"\{%(?!\x00)|\{\{(?!\x00)", sk)) + list(re.finditer(r"(?<!\x00)%\}|(?<!\x00)\}\}", sk)):
+                n_open += 1
+                res.fail("C12.R5", file=nc.file, line=js.lineno, qualname=f"{nc.name}.__str__", construct=f"{nc.name}: `{mt.group()}` not adjacent to a wc marker in {sk.replace(chr(0), '…')[:60]!r}", message=f"{nc.name}.__str__ prints `{mt.group()}` without an adjacent whitespace-control marker placeholder", what=f"{nc.name}: markup printed with wc markers")
             vals = js.values
             for i, v in enumerate(vals):
                 if isinstance(v, ast.Constant) and isinstance(v.value, str):
